@@ -326,6 +326,11 @@ func runC14(p *Prog, l *Ledger) {
 			}
 			for _, in := range inits {
 				if !(in.Block().Dominates(oc.Block()) && in.Block() != oc.Block()) {
+					// written after the options: harmless when it can only fill what no option set (guarded by "still
+					// unset"), or when no option writes that field at all (a value derived from the final configuration)
+					if c14CannotOverwrite(p, f, in, cfgT, 2) {
+						continue
+					}
 					okDom = false
 					late = in
 				}
@@ -794,6 +799,106 @@ func c14NestedIn(inner, outer *types.Named) bool {
 		if nt, ok := st.Field(i).Type().(*types.Named); ok && types.Identical(nt, inner) {
 			return true
 		}
+	}
+	return false
+}
+
+// c14OptionFields: the config fields that option closures (function literals of package grpc) write.
+func c14OptionFields(p *Prog, cfgT *types.Named) map[string]bool {
+	out := map[string]bool{}
+	for _, g := range p.Funcs {
+		if g.Parent() == nil || !p.InPkg(g, "grpc") {
+			continue
+		}
+		for _, a := range p.Accesses(g) {
+			if a.Write && a.Field.Type != nil && cfgT != nil && (types.Identical(a.Field.Type, cfgT) || c14NestedIn(a.Field.Type, cfgT)) {
+				out[p.FieldKey(a.Field)] = true
+			}
+		}
+	}
+	return out
+}
+
+// c14CannotOverwrite: the initialiser (a store into the config, or a call of a module function that writes it) cannot
+// replace what a user option stored: every write is on the true edge of "<that field> == nil" for the same field, or
+// goes to a field that no option writes.
+func c14CannotOverwrite(p *Prog, f *ssa.Function, in ssa.Instruction, cfgT *types.Named, depth int) bool {
+	optF := c14OptionFields(p, cfgT)
+	guarded := func(g *ssa.Function, st *ssa.Store) bool {
+		fa, ok := st.Addr.(*ssa.FieldAddr)
+		if !ok {
+			return false
+		}
+		fr, base, ok := fieldOf(fa)
+		if !ok {
+			return false
+		}
+		if !optF[p.FieldKey(fr)] {
+			return true
+		}
+		baseAP := AccessPath(base).String()
+		okG := false
+		allInstrs(g, func(i2 ssa.Instruction) {
+			iff, isIf := i2.(*ssa.If)
+			if !isIf {
+				return
+			}
+			bo, isB := iff.Cond.(*ssa.BinOp)
+			if !isB || (bo.Op != token.EQL && bo.Op != token.NEQ) {
+				return
+			}
+			for _, pair := range [][2]ssa.Value{{bo.X, bo.Y}, {bo.Y, bo.X}} {
+				f2, b2, ok := loadedField(strip(pair[0], false))
+				if ok && sameField(f2, fr) && AccessPath(b2).String() == baseAP && isNilConst(strip(pair[1], false)) {
+					t := iff.Block().Succs[0]
+					if bo.Op == token.NEQ {
+						t = iff.Block().Succs[1] // if cfg.limiter != nil { return }
+					}
+					if t == st.Block() || t.Dominates(st.Block()) {
+						okG = true
+					}
+				}
+			}
+		})
+		return okG
+	}
+	switch x := in.(type) {
+	case *ssa.Store:
+		return guarded(f, x)
+	case *ssa.Call:
+		c := p.CallOf(x)
+		if c.Static == nil || depth <= 0 {
+			return false
+		}
+		ok := true
+		n := 0
+		allInstrs(c.Static, func(i2 ssa.Instruction) {
+			switch y := i2.(type) {
+			case *ssa.Store:
+				if fa, isF := y.Addr.(*ssa.FieldAddr); isF {
+					if fr, _, isOk := fieldOf(fa); isOk && fr.Type != nil && cfgT != nil && (types.Identical(fr.Type, cfgT) || c14NestedIn(fr.Type, cfgT)) {
+						n++
+						if !guarded(c.Static, y) {
+							ok = false
+						}
+					}
+				}
+			case *ssa.Call:
+				c2 := p.CallOf(y)
+				if c2.Static != nil && p.InModule(c2.Static) && c2.Static.Blocks != nil && p.InPkg(c2.Static, "grpc") {
+					for _, a := range p.Accesses(c2.Static) {
+						if a.Write && a.Field.Type != nil && cfgT != nil && (types.Identical(a.Field.Type, cfgT) || c14NestedIn(a.Field.Type, cfgT)) {
+							if !c14CannotOverwrite(p, c.Static, y, cfgT, depth-1) {
+								ok = false
+							}
+							n++
+							break
+						}
+					}
+				}
+			}
+		})
+		return ok && n > 0
 	}
 	return false
 }
